@@ -32,6 +32,9 @@ def _case(s, k, rng):
         warnings.simplefilter("ignore")
         r = _pair(sample_hdi(arr, f))
         same = [_pair(sample_hdi(flt, f)), _pair(sample_hdi(list(s), f))]
+        if min(s) >= 0:
+            # unsigned and narrow integer dtypes are accepted input too (differences of neighbours must not wrap)
+            same += [_pair(sample_hdi(arr.astype(np.uint8), f)), _pair(sample_hdi(arr.astype(np.uint16), f)), _pair(sample_hdi(arr.astype(np.int8), f))]
         # 2-D: the sample as the middle column between two other columns; every column is treated independently
         other = rng.integers(0, 9, size=(len(s), 2))
         two = np.column_stack([other[:, 0], arr, other[:, 1]])
@@ -113,7 +116,7 @@ def run(tier):
     for i in bad[:300]:
         e = events[i]
         ck.violation("Good / call-variant equality / permutation invariance / affine covariance / input unchanged",
-                     {"sample": e["s"], "fraction": e["k"] / 16, "returned": e["r"], "variants[float,list,column,other-column,one-column]": e["same"],
+                     {"sample": e["s"], "fraction": e["k"] / 16, "returned": e["r"], "variants[float,list,(uint8,uint16,int8),column,other-column,one-column]": e["same"],
                       "permuted": e["rp"], "float_values_0.1x-0.37 (as lattice values)": e.get("rf"), "int64_values_2^60+100x (candidate lattice pairs)": e.get("ric"), "affine": {"a": e["a"], "b": e["b"], "returned": e["ra"]}, "input_unchanged": e["unchanged"]},
                      site="sample_hdi")
     ck.sample({"part": "hdi", "sample": events[len(events) // 2]["s"], "fraction": events[len(events) // 2]["k"] / 16,
